@@ -113,8 +113,7 @@ func (x *Exec) call0(st *State, e *ast.CallExpr) []Val {
 			if v.IsSlice() {
 				ref = v.Arr
 			}
-			now := x.heapGet(st, "alloc", SArr(SInt, SBool))
-			return []Val{{Typ: types.Typ[types.Bool], T: x.c.Or(x.c.Eq(ref, x.c.Int(0)), x.c.Select(now, embRoot(ref)))}}
+			return []Val{{Typ: types.Typ[types.Bool], T: x.c.Or(x.c.Eq(ref, x.c.Int(0)), x.isAlloc(st, ref))}}
 		case "fresh":
 			// fresh(p): p was allocated by this call (not allocated in the pre-state)
 			v := x.expr(st, e.Args[0])
@@ -122,18 +121,14 @@ func (x *Exec) call0(st *State, e *ast.CallExpr) []Val {
 			if pre == nil {
 				x.fail("fresh(...) outside a postcondition")
 			}
-			al := x.heapGet(pre, "alloc", SArr(SInt, SBool))
 			ref := v.T
 			if v.IsSlice() {
 				ref = v.Arr
 			}
-			now := x.heapGet(st, "alloc", SArr(SInt, SBool))
-			if preBrk, ok := pre.heap["ghost.brk"]; ok {
-				nowBrk := x.heapGet(st, "ghost.brk", SInt)
-				x.assume(st, x.c.Implies(x.c.And(x.c.Neq(ref, x.c.Int(0)), x.c.Not(x.c.Select(al, ref)), x.c.Select(now, ref)), x.c.And(x.c.Ge(ref, preBrk), x.c.Lt(ref, nowBrk))))
-			}
-			// a freshly allocated object is a root object (not an embedded address)
-			return []Val{{Typ: types.Typ[types.Bool], T: x.c.And(x.c.Neq(ref, x.c.Int(0)), x.c.Not(x.c.Select(al, ref)), x.c.Select(now, ref), x.c.Eq(x.c.Mod(ref, x.c.Int(embN)), x.c.Int(0)))}}
+			// fresh: a root object at or above the frontier of the pre-state and below the current one
+			preBrk := x.heapGet(pre, "ghost.brk", SInt)
+			nowBrk := x.heapGet(st, "ghost.brk", SInt)
+			return []Val{{Typ: types.Typ[types.Bool], T: x.c.And(x.c.Neq(ref, x.c.Int(0)), x.c.Ge(ref, preBrk), x.c.Lt(ref, nowBrk), x.c.Eq(x.c.Mod(ref, x.c.Int(embN)), x.c.Int(0)))}}
 		case "sameArray":
 			a := x.expr(st, e.Args[0])
 			b := x.expr(st, e.Args[1])
@@ -671,7 +666,7 @@ func (x *Exec) callContract(st *State, con *Contract, recv *Val, args []Val, e *
 	// frame: havoc what the callee may modify
 	if con.ModAll {
 		for name, t := range st.heap {
-			if name == "alloc" {
+			if name == "ghost.brk" {
 				continue
 			}
 			st.heap[name] = c.Fresh("call_"+name, t.sort)
@@ -684,11 +679,6 @@ func (x *Exec) callContract(st *State, con *Contract, recv *Val, args []Val, e *
 	}
 	// the callee may allocate: allocation grows monotonically
 	{
-		cur := x.heapGet(st, "alloc", SArr(SInt, SBool))
-		na := c.Fresh("call_alloc", cur.sort)
-		r := c.Bound("r", SInt)
-		x.assumeGlobal(st, c.Forall([]*Term{r}, c.Implies(c.Select(cur, r), c.Select(na, r)), []*Term{c.Select(na, r)}))
-		st.heap["alloc"] = na
 		brk := x.heapGet(st, "ghost.brk", SInt)
 		nb := c.Fresh("call_brk", SInt)
 		x.assumeGlobal(st, c.Ge(nb, brk))
@@ -1152,7 +1142,7 @@ func (x *Exec) loggerCall(st *State, e *ast.CallExpr, name string) []Val {
 func (x *Exec) scanCallMods(ms *modSet, e *ast.CallExpr) {
 	if tv, ok := x.info.Types[e.Fun]; ok && tv.IsType() {
 		if isSliceT(tv.Type) {
-			ms.add("alloc", SArr(SInt, SBool))
+			ms.add("ghost.brk", SInt)
 			x.markElemComps(ms, tv.Type.Underlying().(*types.Slice).Elem())
 		}
 		return
@@ -1161,7 +1151,7 @@ func (x *Exec) scanCallMods(ms *modSet, e *ast.CallExpr) {
 		if b, ok := x.info.Uses[id].(*types.Builtin); ok {
 			switch b.Name() {
 			case "append", "make":
-				ms.add("alloc", SArr(SInt, SBool))
+				ms.add("ghost.brk", SInt)
 				if s, ok := x.typeOf(e).Underlying().(*types.Slice); ok {
 					x.markElemComps(ms, s.Elem())
 				}
@@ -1173,7 +1163,7 @@ func (x *Exec) scanCallMods(ms *modSet, e *ast.CallExpr) {
 					x.markElemComps(ms, s.Elem())
 				}
 			case "new":
-				ms.add("alloc", SArr(SInt, SBool))
+				ms.add("ghost.brk", SInt)
 				x.markObjCompsIfObj(ms, x.typeOf(e).Underlying().(*types.Pointer).Elem())
 			case "delete":
 				t := x.typeOf(e.Args[0])
@@ -1213,7 +1203,7 @@ func (x *Exec) scanCallMods(ms *modSet, e *ast.CallExpr) {
 			ms.all = true
 			return
 		}
-		ms.add("alloc", SArr(SInt, SBool))
+		ms.add("ghost.brk", SInt)
 		for _, mc := range con.Modifies {
 			if x.globalOnlyClause(mc) {
 				// precise: the designator denotes the same locations at the loop head
